@@ -4,7 +4,9 @@ Theorems: coq/Props/Properties_C04.v.  Tie: ConfigLoader(dict) with J=0 external
 three layers are certified inside Coq by interval arithmetic:
  (K) invariant mass and helicity-angle cosine from the momenta  vs  the implementation's cal_angle output,
  (A) closed-form chain amplitude (given the implementation's own m_R and cos theta)  vs  the implementation's chain amplitude,
- (D) |sum_k a_k|^2 of the implementation's chain amplitudes  vs  the implementation's density."""
+ (D) |sum_k a_k|^2 of the implementation's chain amplitudes  vs  the implementation's density.
+The closed form tied in (A) is Amp/Pipeline0.v res_amp_core_abs (production barrier after the repair of Bprime_q2: modulus of the polynomial at
+the nominal momentum); a density that is not a finite number fails layer "finite" with the event as failing input."""
 import math
 import random
 
@@ -18,12 +20,25 @@ from rcases import cplx_stmt, real_stmt
 TECHNIQUE = "Coq proof (polynomial identities d^J_00=P_J, exact CG radicals, invariance of the closed form) + layered Coq-Interval correspondence"
 
 HEADER = ("From Coq Require Import Reals List ZArith.\nFrom Interval Require Import Tactic.\n"
-          "From TFV Require Import Base.RBase Base.Tie Shape.LineShapes Amp.Dalitz3.\nImport ListNotations.\nOpen Scope R_scope.\n")
+          "From TFV Require Import Base.RBase Base.Tie Shape.LineShapes Amp.Dalitz3 Amp.Pipeline0.\nImport ListNotations.\nOpen Scope R_scope.\n")
 RT = "repeat split; rcompute; rclose"
 
 
 def P4q(v):
     return "(%s, %s, %s, %s)" % tuple(Rq(x) for x in v)
+
+
+BP_COEF = {0: [1], 1: [1, 1], 2: [1, 3, 9], 3: [1, 6, 45, 225], 4: [1, 10, 135, 1575, 11025]}
+
+
+def q02_of(M0, m0R, mk):
+    """signed break-up momentum squared of A -> R k at the nominal mass of R"""
+    return (M0 - (m0R + mk)) * (M0 + (m0R + mk)) * (M0 - (m0R - mk)) * (M0 + (m0R - mk)) / (2 * M0) ** 2
+
+
+def nominal_poly(J, M0, m0R, mk, d=3.0):
+    """Blatt-Weisskopf polynomial P_J(q0^2 d^2) of the production vertex at the nominal mass (negative: odd J far beyond the limit)"""
+    return float(np.polyval(BP_COEF[J], q02_of(M0, m0R, mk) * d * d))
 
 
 def build(rnd, J_list=None, nres=None, beyond=False, pairs_forced=None):
@@ -38,6 +53,12 @@ def build(rnd, J_list=None, nres=None, beyond=False, pairs_forced=None):
         J = J_list[n] if J_list else rnd.randrange(0, 5)
         lo, hi = mf[i] + mf[j], M0 - mf[k]
         mass = rnd.uniform(hi + 0.02, hi + 0.15) if (beyond and n == 0) else rnd.uniform(lo + 0.05, hi + 0.15)
+        if beyond == "far" and n == 0:
+            # odd J, nominal mass so far beyond the kinematic limit that P_J(q0^2 d^2) < 0 (J=1: q0^2 < -1/d^2; J=3: q0^2 d^2 < -5.1)
+            assert J % 2 == 1
+            mass = hi + 0.05
+            while nominal_poly(J, M0, mass, mf[k]) > -rnd.uniform(0.3, 3.0):
+                mass += 0.03
         res[pr] = {"pair": pr, "J": J, "P": (1 if J % 2 == 0 else -1), "mass": mass, "width": rnd.uniform(0.03, 0.3)}
     return M0, mf, res
 
@@ -46,7 +67,9 @@ def polar_of(pars, prefix):
     return pars[prefix + "r"], pars[prefix + "i"]
 
 
-def run_config(ctx, rnd, tag, M0, mf, res, nev, cases, p4=None, pars=None, info=None, vcases=None):
+def run_config(ctx, rnd, tag, M0, mf, res, nev, cases, p4=None, pars=None, info=None, vcases=None, at_threshold=(), a_atol=0.0):
+    """at_threshold: chains whose resonance system sits at its own threshold in these events (helicity angle 0/0: the cos part of
+    layer K is not stated, layer A compares with the absolute tolerance a_atol: the closed form is q^J -> 0 there)"""
     from tf_pwa.config_loader import ConfigLoader
     cfg = ampkit.three_body_config(M0, mf, res)
     config = ConfigLoader(cfg)
@@ -59,6 +82,11 @@ def run_config(ctx, rnd, tag, M0, mf, res, nev, cases, p4=None, pars=None, info=
         p4 = ampkit.gen_events(M0, mf, nev, rnd.randrange(10 ** 6))
     nev = len(p4["B"])
     data = config.data.cal_angle(p4)
+    if vcases is not None and any(r["J"] and nominal_poly(r["J"], M0, r["mass"], mf[ampkit.PAIRS[r["pair"]][2]]) < 0 for r in res.values()):
+        # Amp/Chain.v carries the production barrier of the code before the repair of Bprime_q2; it equals the repaired one
+        # (C04_generic_pipeline_is_closed_form_abs) unless the polynomial at the nominal momentum is negative: closed form only there
+        ctx.count("generic_vertex_layers:skipped_negative_nominal_polynomial")
+        vcases = None
     if vcases is not None:
         # the GENERIC pipeline layers of the same model (LS couplings with CG radicals, barrier, vertex = H * D*), tied to Amp/Chain.v;
         # their composition for spin-0 externals is the closed form by theorem C04_generic_pipeline_is_closed_form
@@ -71,6 +99,22 @@ def run_config(ctx, rnd, tag, M0, mf, res, nev, cases, p4=None, pars=None, info=
     per_chain, full = ampkit.chain_amps(amp, data)
     dg = amp.decay_group
     d = 3.0
+    # a density or chain amplitude that is not a finite number is a failure of its own (nothing to state inside Coq)
+    skip = set()
+    for e in range(nev):
+        if not (np.isfinite(dens[e]) and all(np.isfinite(pc.reshape(-1)[e]) for pc in per_chain)):
+            skip.add(e)
+            ev = {x: p4[x][e].tolist() for x in ampkit.FINALS}
+            try:
+                ref = reference_density(cfg, pars, ev)
+            except Exception as ex:
+                ref = repr(ex)
+            ctx.count("not_finite")
+            ctx.fail("finite", "F_%s_e%d" % (tag, e), "implementation density %r (chain amplitudes %s), closed form %r" % (
+                float(dens[e]), [str(complex(pc.reshape(-1)[e])) for pc in per_chain], ref),
+                inp={"config": cfg, "event": ev}, site="amplitude:finite", fingerprint="finite",
+                failing_input={"config": cfg, "params": {kk: float(v) for kk, v in pars.items()}, "events": {x: [p4[x][e].tolist()] for x in ampkit.FINALS},
+                               "event": ev, "impl_density": float(dens[e]), "closed_form_density": ref})
     for ci, ch in enumerate(dg.chains):
         name = [str(r) for r in ch.inner][0]
         i, j, k = ampkit.PAIRS[res[name]["pair"]]
@@ -95,11 +139,16 @@ def run_config(ctx, rnd, tag, M0, mf, res, nev, cases, p4=None, pars=None, info=
         a_impl = per_chain[ci].reshape(-1)
         ctx.count("J=%d" % J); ctx.count("nres=%d" % len(res))
         for e in range(nev):
+            if e in skip:
+                continue
+            if not (np.isfinite(beta[e]) and np.isfinite(mR[e])):  # angle undefined (0/0) and irrelevant for the density
+                ctx.count("chain_layers_skipped:angle_undefined")
+                continue
             pi, pj, pk_ = p4[i][e], p4[j][e], p4[k][e]
             cid = "%s_c%d_e%d" % (tag, ci, e)
             meta = {"config": cfg, "params": {kk: float(v) for kk, v in pars.items()}, "event": {x: p4[x][e].tolist() for x in ampkit.FINALS}, "chain": name, "J": J}
             # (K) kinematic layer
-            stmtK = "(%s /\\ %s)" % (
+            stmtK = real_stmt("sqrt (inv2 %s %s)" % (P4q(pi), P4q(pj)), float(mR[e]), rtol=1e-10) if name in at_threshold else "(%s /\\ %s)" % (
                 real_stmt("sqrt (inv2 %s %s)" % (P4q(pi), P4q(pj)), float(mR[e]), rtol=1e-10),
                 real_stmt("cos_hel %s %s %s %s (inv2 %s %s) (inv2 %s %s)" % (Rq(M0), Rq(mf[i]), Rq(mf[j]), Rq(mf[k]), P4q(pi), P4q(pj), P4q(pi), P4q(pk_)),
                           math.cos(float(beta[e])), rtol=0, atol=1e-8))
@@ -116,14 +165,18 @@ def run_config(ctx, rnd, tag, M0, mf, res, nev, cases, p4=None, pars=None, info=
             stmtQ = "(" + " /\\ ".join(real_stmt("%s %s %s %s" % ((a[0],) + tuple(Rq(x) for x in a[1:])), v, rtol=1e-11, atol=1e-14) for a, v in zip(qargs, qv)) + ")"
             cases.append(("Q_" + cid, stmtQ, RT, dict(meta, layer="breakup_momenta", impl_q=qv)))
             ctx.count("nominal_mass:" + ("inside" if qv[1] > 0 else "beyond_kinematic_limit"))
+            if J and nominal_poly(J, M0, m0R, mf[k]) < 0:
+                ctx.count("nominal_polynomial_negative:J=%d" % J)
             # (A) chain amplitude from the implementation's own mR, cos(theta), q's
-            expr = "res_amp_core %s %d %s %s %s %s %s %s %s %s (cos %s)" % (
+            expr = "res_amp_core_abs %s %d %s %s %s %s %s %s %s %s (cos %s)" % (
                 cexpr, J, Rq(qv[0]), Rq(qv[1]), Rq(qv[2]), Rq(qv[3]), Rq(m0R), Rq(g0R), Rq(d), Rq(mRe), Rq(float(beta[e])))
-            cases.append(("A_" + cid, cplx_stmt(expr, complex(a_impl[e]), rtol=1e-9), RT,
+            cases.append(("A_" + cid, cplx_stmt(expr, complex(a_impl[e]), rtol=1e-9, atol=(a_atol if name in at_threshold else 0.0)), RT,
                           dict(meta, layer="chain_amplitude", impl_amp=str(complex(a_impl[e])))))
             ctx.distinct.add((tag, ci, e))
     # (D) density layer
     for e in range(nev):
+        if e in skip:
+            continue
         s = "Csum [%s]" % "; ".join("(%s, %s)" % (Rq(complex(pc.reshape(-1)[e]).real), Rq(complex(pc.reshape(-1)[e]).imag)) for pc in per_chain)
         cases.append(("D_%s_e%d" % (tag, e), real_stmt("Cnorm2 (%s)" % s, float(dens[e]), rtol=1e-11), RT,
                       {"layer": "density", "config": cfg, "event": {x: p4[x][e].tolist() for x in ampkit.FINALS}, "impl_density": float(dens[e]),
@@ -132,6 +185,72 @@ def run_config(ctx, rnd, tag, M0, mf, res, nev, cases, p4=None, pars=None, info=
     if info is not None:
         info.update(pars=pars, p4=p4, dens=dens, cfg=cfg)
     return cfg
+
+
+PIN_M0, PIN_MF = 5.0, {"B": 0.5, "C": 0.3, "D": 1.0}
+
+
+def collinear_events(direction, n=2):
+    """events ON the boundary of the Dalitz region: all three momenta along one line (cos theta = +-1 for every chain)"""
+    dv = np.array(direction, float)
+    dv = dv / np.linalg.norm(dv)
+    mB, mC, mD = PIN_MF["B"], PIN_MF["C"], PIN_MF["D"]
+    out = {k: [] for k in ampkit.FINALS}
+    for i in range(n):
+        mbc = (mB + mC) + (PIN_M0 - mD - mB - mC) * (i + 0.5) / n
+        q, p = ampkit._relp(mbc, mB, mC), ampkit._relp(PIN_M0, mbc, mD)
+        s = 1 if i % 2 == 0 else -1
+        eb, ec, er = math.sqrt(q * q + mB ** 2), math.sqrt(q * q + mC ** 2), math.sqrt(p * p + mbc ** 2)
+        g, bg = er / mbc, p / mbc
+        out["B"].append([g * eb + bg * s * q, *((g * s * q + bg * eb) * dv)])
+        out["C"].append([g * ec - bg * s * q, *((-g * s * q + bg * ec) * dv)])
+        out["D"].append([math.sqrt(p * p + mD ** 2), *(-p * dv)])
+    return {k: np.array(v) for k, v in out.items()}
+
+
+def threshold_events(n, seed):
+    """B and C comoving: m_BC = m_B + m_C up to round-off (the corner of the Dalitz region where the BC break-up momentum vanishes)"""
+    rs = np.random.RandomState(seed)
+    dv = rs.normal(size=(n, 3))
+    dv /= np.linalg.norm(dv, axis=1)[:, None]
+    mB, mC, mD = PIN_MF["B"], PIN_MF["C"], PIN_MF["D"]
+    p = ampkit._relp(PIN_M0, mB + mC, mD)
+    v = p / (mB + mC)
+    one = np.ones((n, 1))
+    return {"B": np.concatenate([mB * math.sqrt(1 + v * v) * one, mB * v * dv], -1), "C": np.concatenate([mC * math.sqrt(1 + v * v) * one, mC * v * dv], -1),
+            "D": np.concatenate([math.sqrt(mD ** 2 + p * p) * one, -p * dv], -1)}
+
+
+def boundary_scenarios(ctx, rnd, cases):
+    """pinned events on the boundary of the Dalitz region (hunt round 2):
+    (1) all momenta collinear, also along (1,1,1) where Vector3.cross_unit's first fallback axis is parallel again;
+    (2) m_BC at its threshold with odd J in BC: |q|^2 of the data comes out as -1e-16 by round-off for part of the events."""
+    from tf_pwa.config_loader import ConfigLoader
+    res = {"R_BC": {"pair": "R_BC", "J": 0, "P": 1, "mass": 2.0, "width": 0.3}, "R_BD": {"pair": "R_BD", "J": 1, "P": -1, "mass": 2.4, "width": 0.2},
+           "R_CD": {"pair": "R_CD", "J": 2, "P": 1, "mass": 1.9, "width": 0.4}}
+    p4 = {k: np.concatenate([collinear_events(dr, 2)[k] for dr in [(1, 1, 1), (-1, -1, -1), (1, 2, 3)]]) for k in ampkit.FINALS}
+    ctx.count("boundary:collinear_events", len(p4["B"]))
+    run_config(ctx, rnd, "bc", PIN_M0, PIN_MF, res, len(p4["B"]), cases, p4=p4)
+    res = {"R_BC": {"pair": "R_BC", "J": 1, "P": -1, "mass": 2.0, "width": 0.3}, "R_BD": {"pair": "R_BD", "J": 2, "P": 1, "mass": 2.4, "width": 0.2},
+           "R_CD": {"pair": "R_CD", "J": 3, "P": -1, "mass": 2.9, "width": 0.25}}
+    cand = threshold_events(60, 3)
+    config = ConfigLoader(ampkit.three_body_config(PIN_M0, PIN_MF, res))
+    data = config.data.cal_angle(cand)
+    q2 = ang = None
+    for ck, cv in data["decay"].items():
+        for dk, dv in cv.items():
+            if str(dk.core) == "(B, C)" and "|q|2" in dv:
+                q2 = np.array(dv["|q|2"]); ang = np.array(dv[[o for o in dk.outs][0]]["ang"]["beta"])
+    assert q2 is not None
+    # the data's own |q|^2 is negative by round-off (the case that was NaN) / non-negative; events whose daughter momentum in the BC frame is
+    # exactly 0 have an undefined helicity angle (0/0 also in the closed form) and are not part of the property
+    neg = [e for e in range(len(q2)) if q2[e] < 0 and np.isfinite(ang[e])][:2]
+    pos = [e for e in range(len(q2)) if q2[e] >= 0 and np.isfinite(ang[e])][:1]
+    ctx.count("boundary:threshold_events:q2_negative_by_roundoff", len(neg)); ctx.count("boundary:threshold_events:q2_nonnegative", len(pos))
+    ctx.count("boundary:threshold_candidates_angle_undefined", int(np.sum(~np.isfinite(ang))))
+    sel = neg + pos
+    p4 = {k: cand[k][sel] for k in ampkit.FINALS}
+    run_config(ctx, rnd, "bt", PIN_M0, PIN_MF, res, len(sel), cases, p4=p4, at_threshold=("R_BC",), a_atol=1e-6)
 
 
 def reference_density(cfg, pars, ev):
@@ -160,7 +279,7 @@ def reference_density(cfg, pars, ev):
         cth = (sik - mf[i] ** 2 - mf[k] ** 2 - 2 * Ei * Ek) / (2 * math.sqrt(Ei ** 2 - mf[i] ** 2) * math.sqrt(Ek ** 2 - mf[k] ** 2))
         q, p, p0 = relp(M0, mR, mf[k]), relp(mR, mf[i], mf[j]), relp(m0R, mf[i], mf[j])
         q02 = (M0 - (m0R + mf[k])) * (M0 + (m0R + mf[k])) * (M0 - (m0R - mf[k])) * (M0 + (m0R - mf[k])) / (2 * M0) ** 2
-        ratio = bp(J, q02 * 9.0) / bp(J, q * q * 9.0)
+        ratio = abs(bp(J, q02 * 9.0)) / bp(J, q * q * 9.0)  # modulus of the polynomial at the nominal momentum (Amp/Pipeline0.v Bprime_q2_abs)
         Bq = math.sqrt(ratio) if ratio > 0 else 1.0
         gam = g0R * (p / p0) ** (2 * J + 1) * (m0R / mR) * Bp(J, p, p0) ** 2
         BW = 1 / (m0R ** 2 - sij - 1j * m0R * gam)
@@ -202,14 +321,16 @@ def run(ctx):
     rnd = random.Random(ctx.seed * 1000003 + 4)
     ctx.rule = ("random final/parent masses, nominal resonance masses from just above the daughters' threshold to 0.15 beyond the kinematic limit (signed q0^2), 1-3 interfering resonances on distinct pairings with J in 0..4, random masses/widths/polar couplings; events from the "
                 "library's phase-space generator; per (config, chain, event) three certified layers K/A/D; distinct = distinct (config,chain,event); quick 6 configs x 3 events incl. "
-                "every J once, thorough 40 configs x 5 events; plus 2 (4) configs evaluated AFTER a model with the same particle names and another parent spin in the same process")
+                "every J once, thorough 40 configs x 5 events; odd-J resonances whose nominal mass lies so far beyond the kinematic limit that the Blatt-Weisskopf polynomial at the nominal momentum is negative (quick 2, thorough 4 configs); "
+                "pinned boundary events: all momenta collinear (along (1,1,1), (-1,-1,-1), (1,2,3)) and m_BC at its threshold with odd J (data |q|^2 negative by round-off; absolute tolerance 1e-6 on that chain's amplitude, "
+                "events with an exactly vanishing daughter momentum in the BC frame excluded: helicity angle 0/0); a non-finite density is a failure of its own (layer finite); plus 2 (4) configs evaluated AFTER a model with the same particle names and another parent spin in the same process")
     common.theorem_stage(ctx)
     cases = []
     vcases = []
     ctx.extra_targets = ["Amp/Chain.vo"]
     quick = ctx.tier == "quick"
-    plans = [([J], 1, False) for J in range(5)] + [(None, 3, False), ([1, 2], 2, True), ([3], 1, True)] if quick else \
-        [([J], 1, False) for J in range(5)] * 2 + [([J, 2], 2, True) for J in range(1, 5)] + [(None, None, False)] * 30
+    plans = [([J], 1, False) for J in range(5)] + [(None, 3, False), ([1, 2], 2, True), ([3], 1, True), ([1], 1, "far"), ([3, 2], 2, "far")] if quick else \
+        [([J], 1, False) for J in range(5)] * 2 + [([J, 2], 2, True) for J in range(1, 5)] + [([1], 1, "far"), ([3], 1, "far"), ([1, 0], 2, "far"), ([3, 1, 2], 3, "far")] + [(None, None, False)] * 30
     # history FIRST (before this process has evaluated any spin-0-parent model of these names): models with the SAME particle names
     # and other spins were evaluated earlier in this process (decays compare equal
     # by name, so anything cached through them would leak: the LS-helicity matrix did before /repo a1f549d).  The same (l, s)
@@ -233,6 +354,7 @@ def run(ctx):
         cfg = run_config(ctx, rnd, "g%d" % n, M0, mf, res, 3 if quick else 5, cases, vcases=(vcases if (n < 5 or not quick and n % 4 == 0) else None))
         if n == 0:
             ctx.sample({"config": cfg})
+    boundary_scenarios(ctx, rnd, cases)
     for c in cases[:: max(1, len(cases) // 4)]:
         ctx.sample({"case": c[0], "goal": c[1][:500]})
     res = common.coq_cases(ctx, "c04", HEADER, [c[:3] for c in cases], per_file=6, case_timeout=60)
